@@ -252,6 +252,9 @@ def run(ctx):
                ("" if ok else " - the guard is dropped by the unwinder while panicking, which poisons the mutex"))
 
     # ---------------- rules shared with the sibling properties anchored in the same functions
+    ctx.import_rules("C03", {
+        "R5.last-drop-destroys": "a handle dropped while a user panic unwinds must still take the pool lock unconditionally and remove its object: a `try_lock`-and-give-up leaves the object alive and counted after the panic was contained",
+    })
     ctx.import_rules("C02", {
         "R1.dropper-pairing": "a dropper armed before the user initialiser runs the payload destructor on uninitialised memory when the initialiser panics",
         "R4.slab-count": "a counter or free-list write made before the user initialiser survives its panic",
